@@ -15,5 +15,6 @@ CONSTANTS
   SnapDeleteOverlap = TRUE
   MaxOps = 1000
 INVARIANTS TypeOK FilesSorted GenFresh
+PROPERTIES FinStable
 VIEW View
 CHECK_DEADLOCK FALSE
